@@ -164,15 +164,14 @@ static void c02_case(uint64_t idx, rng_t *r) {
 /* arrays of more than 2^20 elements (the first p3 cases of every shard): any model, with a unique minimum and a
  * unique maximum dropped at random positions so that analysis passes which look at a subset of a large input are
  * observable */
-static bool c02_huge_case(const codec_t *c, uint64_t g, rng_t *r) {
+static bool make_huge_input(const codec_t *c, uint64_t g, rng_t *r, input_t *out, bool giant_sizes) {
     static const size_t lens[] = {1048577, 1200001, 1500000, 2097153, 3000000, 1048576 + 4097, 2500000};
-    /* p4: "giant" arrays instead — past 2^24 elements and past 2^32/100, 2^32/95, 2^32/90 elements */
+    /* "giant" arrays instead — past 2^24 elements and past 2^32/100, 2^32/95, 2^32/90 elements */
     static const size_t giant[] = {16777217, 16777216 + 70000, 20000000, 33554433, 42949673, 45210183, 45300000, 47721859, 50000000};
     if (c->maxlen && c->maxlen < (1u << 20)) return false;
     if (c->domain == DOM_GROUP || c->domain == DOM_STRICT16) return false;
-    size_t n = g_param[4] ? giant[rng_below(r, sizeof giant / sizeof giant[0])] : lens[rng_below(r, sizeof lens / sizeof lens[0])];
+    size_t n = giant_sizes ? giant[rng_below(r, sizeof giant / sizeof giant[0])] : lens[rng_below(r, sizeof lens / sizeof lens[0])];
     n += rng_below(r, 5);
-    if (g_param[4]) STAT_INC("c02_giant_arrays");
     int model = (int)rng_below(r, AM_NMODELS);
     uint64_t *tmp = malloc(n * 8);
     gen_array_model(r, model, tmp, n, (unsigned)c->elembits);
@@ -194,12 +193,16 @@ static bool c02_huge_case(const codec_t *c, uint64_t g, rng_t *r) {
         if (p2 != p1) tmp[p2] = highv;
         n = shape_domain(c, r, tmp, n, model);
     }
-    input_t in;
-    input_alloc(&in, n, g);
-    memcpy(in.a, tmp, n * 8);
+    input_alloc(out, n, g);
+    memcpy(out->a, tmp, n * 8);
     free(tmp);
-    in.model = model;
-    STAT_INC("c02_huge_arrays");
+    out->model = model;
+    return true;
+}
+static bool c02_huge_case(const codec_t *c, uint64_t g, rng_t *r) {
+    input_t in;
+    if (!make_huge_input(c, g, r, &in, g_param[4] != 0)) return false;
+    STAT_INC(g_param[4] ? "c02_giant_arrays" : "c02_huge_arrays");
     c02_check(c, in, g, r);
     return true;
 }
@@ -465,8 +468,10 @@ static void c13_case(uint64_t idx, rng_t *r) {
     char key[200];
     input_t in;
     if (!g_param[0]) g_param[0] = 1000;
-    make_input(c, idx, r, &in);
-    if (rng_chance(r, 1, 4) && c->domain != DOM_GROUP) { /* block-edge lengths */
+    bool hugein = idx < g_param[3] && make_huge_input(c, g, r, &in, false);
+    if (hugein) STAT_INC("c13_huge_arrays");
+    else make_input(c, idx, r, &in);
+    if (!hugein && rng_chance(r, 1, 4) && c->domain != DOM_GROUP) { /* block-edge lengths */
         static const size_t edges[] = {127, 128, 129, 130, 255, 256, 257, 258};
         size_t n = edges[rng_below(r, 8)];
         free(in.base);
